@@ -181,7 +181,7 @@ def gen_fixed(rng, cfg, combs, count, tag, panic=0.03, style="mixed", allow_zero
     return out
 
 
-NESTS_FUT = ("nest_jj", "nest_jr", "nest_rj", "nest_jt", "nest_gj")
+NESTS_FUT = ("nest_jj", "nest_jr", "nest_rj", "nest_jt", "nest_gj", "nest_tt")
 # (a zip of merges is built by the harness too, "nest_zm", but is not generated: zip deliberately holds an input back while its item for the current
 #  row is buffered, so a woken leaf below that input is legitimately not polled - the leaf-level monitors have no notion of "awaited" per level)
 NESTS_STR = ("nest_mm", "nest_cm", "nest_gm")
@@ -209,7 +209,7 @@ def gen_nest(rng, count, tag, panic=0.02, combs=None, local=False):
         if rng.random() < 0.4:       # the array impls of the crate: outer [_; 2] over inner [_; n/2] (the same slice algorithms: the same model)
             n = rng.choice([2, 4, 4, 6]); cont = rng.choice(["nesta", "nesta", "nestt"])       # nestt: the tuple impls (2-tuple over n/2-tuples; for join the tuple algorithm on both levels)
         if comb in NESTS_FUT:
-            scs = [fscript(rng, n, i, False, panic) for i in range(n)]
+            scs = [fscript(rng, n, i, comb == "nest_tt", panic) for i in range(n)]
         else:
             scs = [sscript(rng, n, i, panic) for i in range(n)]
         if local:
